@@ -7,7 +7,7 @@ use crate::gen::*;
 use crate::prng::Rng;
 use crate::sut;
 use crate::syntax::*;
-use crate::val::{Outcome, Val, ALL_EV};
+use crate::val::{Ev, Outcome, Val, ALL_EV};
 
 pub struct C20;
 
@@ -29,6 +29,80 @@ impl Monitor for C20 {
                     }
                 }
             };
+            // one-level contexts, systematically: the hole as the operand of every postfix and prefix
+            // operator, as each argument of every function and on each side of every binary operator;
+            // E from a pool of small computed (non-literal) expressions; the other operand from special
+            // values, boundary values and random draws
+            {
+                let mut forms: Vec<String> = vec!["-{h}", "+{h}", "{h}²", "{h}³", "2^{h}", "{h}^2", "{h}+{o}", "{o}+{h}", "{h}-{o}", "{o}-{h}", "{h}*{o}", "{o}*{h}", "{h}/{o}", "{o}/{h}", "{h}^{o}", "{o}^{h}"].into_iter().map(String::from).collect();
+                if has_fact_mod(ev) {
+                    forms.extend(["{h}!", "{h}%{o}", "{o}%{h}"].into_iter().map(String::from));
+                }
+                if has_degrad(ev) {
+                    forms.extend(["{h}°", "{h}rad"].into_iter().map(String::from));
+                }
+                if has_bitops(ev) {
+                    forms.extend(["{h}<<{o}", "{o}<<{h}", "{h}>>{o}", "{o}>>{h}", "{h}&{o}", "{h}|{o}"].into_iter().map(String::from));
+                }
+                if has_floorceil_brackets(ev) {
+                    forms.extend(["⌊{h}⌋", "⌈{h}⌉"].into_iter().map(String::from));
+                }
+                for (sp, f) in spellings_for(ev) {
+                    match f.arity() {
+                        Arity::One => forms.push(format!("{}({{h}})", sp)),
+                        Arity::Two => {
+                            forms.push(format!("{}({{h}},{{o}})", sp));
+                            forms.push(format!("{}({{o}},{{h}})", sp));
+                        }
+                        Arity::Var => {
+                            forms.push(format!("{}({{h}},{{o}})", sp));
+                            forms.push(format!("{}({{o}},{{h}},1)", sp));
+                        }
+                    }
+                }
+                let es: Vec<&str> = match ev {
+                    Ev::I64 => vec!["1+1", "4/2", "6-4", "3-1", "1+2", "10-3", "5-5", "0-2", "2*2", "0-1", "20+1", "8*8"],
+                    _ => vec!["1+1", "4/2", "6-4", "3-1", "1+2", "10-3", "5-5", "0-2", "0.5+0.5", "1/2", "1/4+1/4", "0-0.5", "1.5*2", "0*(0-1)"],
+                };
+                let mut others: Vec<String> = match ev {
+                    Ev::I64 => vec!["0", "1", "2", "3", "10", "63", "64", "(0-1)", "(0-2)", "9223372036854775807", "(0-9223372036854775807-1)", "4294967296", "3037000500"].into_iter().map(String::from).collect(),
+                    _ => vec!["0", "1", "2", "3", "10", "0.5", "2.5", "(0-1)", "(0-2)", "(0-0.5)", "(1/0)", "(0-1/0)", "(0/0)", "(0*(0-1))", "1000000", "0.000001", "9007199254740993", "170", "171"].into_iter().map(String::from).collect(),
+                };
+                let n_rand = ctx.tier.pick(60usize, 1500);
+                let mut rr = ctx.rng(&format!("others/{}", ev.name()), 0);
+                for _ in 0..n_rand {
+                    others.push(match ev {
+                        Ev::I64 => format!("{}", rr.below(100_000)),
+                        _ => {
+                            if rr.chance(1, 2) {
+                                format!("{}", 1 + rr.below(10_000))
+                            } else {
+                                format!("{}.{:03}", rr.below(50), rr.below(1000))
+                            }
+                        }
+                    });
+                }
+                let mut k = 0u64;
+                for form in &forms {
+                    let two = form.contains("{o}");
+                    for e in &es {
+                        for (oi, o) in others.iter().enumerate() {
+                            if !two && oi > 0 {
+                                break;
+                            }
+                            k += 1;
+                            if !ctx.mine() {
+                                continue;
+                            }
+                            let _ = k;
+                            let s_hole = form.replace("{h}", "@").replace("{o}", o);
+                            let s_e = form.replace("{h}", &format!("({})", e)).replace("{o}", o);
+                            let case = Case { ev, kind: "substitute".into(), exprs: vec![s_e, s_hole, e.to_string()], phs: vec![Val::zero(ev)], extra: String::new() };
+                            ctx.check(&case, &|c, st| self.judge(c, st));
+                        }
+                    }
+                }
+            }
             let small0 = small_leaf(ev);
             let cfg = GenCfg::full(ev, &leaf);
             let cfg_small = GenCfg::full(ev, &small0);
@@ -100,7 +174,7 @@ impl Monitor for C20 {
         }
     }
     fn rule(&self) -> &'static str {
-        "random pairs (context C, subexpression E) of well-formed expressions without `@` (depth<=4 each, hostile and small literal pools, every operator, function, aggregate and implicit product of the evaluator): a leaf of C becomes the hole; the pair is kept when both C[@] and C[(E)] are sentences whose trees differ only at the hole; three calls through the public API - E alone, C[(E)], and C[@] with the placeholder set to E's value - and the last two must have the same outcome (bit for bit, or Err in both); non-trivial = E evaluated to Ok and both contexts were evaluated; distinct = distinct triple"
+        "one-level contexts, systematically (the hole as operand of every prefix/postfix operator, as each argument of every function, on each side of every binary operator) x a pool of small computed subexpressions x special, boundary and random other operands; random pairs (context C, subexpression E) of well-formed expressions without `@` (depth<=4 each, hostile and small literal pools, every operator, function, aggregate and implicit product of the evaluator): a leaf of C becomes the hole; the pair is kept when both C[@] and C[(E)] are sentences whose trees differ only at the hole; three calls through the public API - E alone, C[(E)], and C[@] with the placeholder set to E's value - and the last two must have the same outcome (bit for bit, or Err in both); non-trivial = E evaluated to Ok and both contexts were evaluated; distinct = distinct triple"
     }
     fn assumptions(&self) -> Vec<&'static str> {
         vec!["pairs whose subexpression is Err, or whose hole would change implicit-product eligibility, are skipped as the statement excludes them"]
